@@ -305,3 +305,236 @@ def flatten_settings_records(module_name: str, tree: ast.Module) -> dict[str, di
             init.body[pos + 1 : pos + 1] = extra
             done.setdefault(qual, {}).update({f"{S}.{f}": c for f, c in mapping.items()})
     return done
+
+
+# ------------------------------------------------------------------ a known method turned into a property
+
+def unproperty_known_methods(trees: dict[str, ast.Module], known_funcs: set[str]) -> dict[str, str]:
+    """`def elapsed(self)` -> `@property def elapsed(self)` with every `x.elapsed()` rewritten to `x.elapsed`: the
+    same calls at the same points, spelled as attribute reads.  The rules know the method as a method (a call event);
+    when *every* class of the package that has a member of that name defines it as a property that used to be a
+    known zero-argument method, and nothing else in the package uses the name as a field, the decoration is undone in
+    memory: `@property` dropped, every read `x.<name>` turned back into the call `x.<name>()`."""
+    defs: dict[str, list[tuple[str, ast.ClassDef, ast.FunctionDef]]] = {}
+    fields: set[str] = set()
+    for mod, tree in trees.items():
+        for cls in [n for n in ast.walk(tree) if isinstance(n, ast.ClassDef)]:
+            for st in cls.body:
+                if isinstance(st, (ast.FunctionDef, ast.AsyncFunctionDef)):
+                    defs.setdefault(st.name, []).append((mod, cls, st))
+                elif isinstance(st, ast.AnnAssign) and isinstance(st.target, ast.Name):
+                    fields.add(st.target.id)
+                elif isinstance(st, ast.Assign):
+                    fields.update(t.id for t in st.targets if isinstance(t, ast.Name))
+        for n in ast.walk(tree):
+            if isinstance(n, ast.Attribute) and isinstance(n.ctx, (ast.Store, ast.Del)):
+                fields.add(n.attr)
+    done: dict[str, str] = {}
+    for name, ds in defs.items():
+        if name.startswith("__") or name in fields:
+            continue
+        is_prop = lambda f: any(isinstance(d, ast.Name) and d.id == "property" for d in f.decorator_list)  # noqa: E731
+        if not all(is_prop(f) and len(f.decorator_list) == 1 and len(f.args.args) == 1 and not f.args.kwonlyargs and not f.args.vararg and not f.args.kwarg and isinstance(f, ast.FunctionDef) for _m, _c, f in ds):
+            continue
+        if not all(f"{m}:{c.name}.{name}" in known_funcs for m, c, _f in ds):
+            continue
+        # every use of the name is a plain read (never already called, never assigned)
+        calls = set()
+        loads = []
+        for tree in trees.values():
+            for n in ast.walk(tree):
+                if isinstance(n, ast.Call) and isinstance(n.func, ast.Attribute) and n.func.attr == name:
+                    calls.add(id(n.func))
+            for n in ast.walk(tree):
+                if isinstance(n, ast.Attribute) and n.attr == name and isinstance(n.ctx, ast.Load):
+                    loads.append(n)
+        if any(id(n) in calls for n in loads) or not loads:
+            continue
+        for _m, _c, f in ds:
+            f.decorator_list = []
+        # rewrite reads into calls (parents needed: replace the node in place by mutating it into a Call is not
+        # possible, so parents are patched)
+        for tree in trees.values():
+            class R(ast.NodeTransformer):
+                def visit_Attribute(self, n: ast.Attribute) -> ast.AST:
+                    self.generic_visit(n)
+                    if n.attr == name and isinstance(n.ctx, ast.Load):
+                        return ast.copy_location(ast.Call(func=n, args=[], keywords=[]), n)
+                    return n
+
+            R().visit(tree)
+            ast.fix_missing_locations(tree)
+        for m, c, _f in ds:
+            done[f"{m}:{c.name}.{name}"] = "property -> method"
+    return done
+
+
+# ------------------------------------------------------------------ renamed parameters of private functions
+
+def restore_param_names(trees: dict[str, ast.Module]) -> dict[str, dict[str, str]]:
+    """A private function (`_name`) keeps its role when its parameters are renamed (`action` -> `requested`): callers of
+    a private function live in the package and were updated with it.  The rules name some of those parameters, so
+    each private function recorded in `known_signatures.json` whose parameters are the same in number and kind but
+    spelled differently gets its recorded spelling back in memory - the `arg` nodes, every use inside the function and
+    the keywords of calls to a function of that name.  A bijection on local identifiers: semantics preserving.
+    Re-ordered or added / removed parameters are left alone."""
+    import json
+    import os
+
+    try:
+        with open(os.path.join(os.path.dirname(os.path.abspath(__file__)), "known_signatures.json")) as fh:
+            sigs = json.load(fh)
+    except (OSError, ValueError):
+        return {}
+    done: dict[str, dict[str, str]] = {}
+    kw_renames: dict[str, dict[str, str]] = {}  # function name -> {new keyword: recorded keyword}
+    for mod, tree in trees.items():
+        cands: list[tuple[str, ast.AST]] = []
+        for st in tree.body:
+            if isinstance(st, (ast.FunctionDef, ast.AsyncFunctionDef)):
+                cands.append((f"{mod}:{st.name}", st))
+            elif isinstance(st, ast.ClassDef):
+                for m in st.body:
+                    if isinstance(m, (ast.FunctionDef, ast.AsyncFunctionDef)):
+                        cands.append((f"{mod}:{st.name}.{m.name}", m))
+        for qual, fn in cands:
+            rec = sigs.get(qual)
+            if rec is None:
+                continue
+            a = fn.args
+            cur_pos = [x.arg for x in a.posonlyargs + a.args]
+            cur_kw = [x.arg for x in a.kwonlyargs]
+            if len(cur_pos) != len(rec["pos"]) or len(cur_kw) != len(rec["kwonly"]):
+                continue
+            cur, want = cur_pos + cur_kw, rec["pos"] + rec["kwonly"]
+            ren = {c: w for c, w in zip(cur, want) if c != w}
+            if not ren:
+                continue
+            if set(ren.values()) & set(cur):
+                continue  # a recorded name is in use at another position: a re-ordering, not a renaming
+            names_in_body = {n.id for n in ast.walk(fn) if isinstance(n, ast.Name)} | {x.arg for n in ast.walk(fn) if isinstance(n, (ast.FunctionDef, ast.AsyncFunctionDef, ast.Lambda)) and n is not fn for x in n.args.args}
+            if set(ren.values()) & names_in_body:
+                continue  # the recorded spelling is used for something else in the body
+            for x in a.posonlyargs + a.args + a.kwonlyargs:
+                if x.arg in ren:
+                    x.arg = ren[x.arg]
+            for n in ast.walk(fn):
+                if isinstance(n, ast.Name) and n.id in ren:
+                    n.id = ren[n.id]
+            done[qual] = ren
+            kw_renames.setdefault(fn.name, {}).update(ren)
+    if kw_renames:
+        for tree in trees.values():
+            for n in ast.walk(tree):
+                if isinstance(n, ast.Call):
+                    f = n.func
+                    fname = f.id if isinstance(f, ast.Name) else (f.attr if isinstance(f, ast.Attribute) else None)
+                    if fname in kw_renames:
+                        for kw in n.keywords:
+                            if kw.arg in kw_renames[fname]:
+                                kw.arg = kw_renames[fname][kw.arg]
+    return done
+
+
+# ------------------------------------------------------------------ one-line predicate helpers
+
+def inline_predicates(trees: dict[str, ast.Module], known_funcs: set[str], pkgs: set[str]) -> dict[str, int]:
+    """`def _is_set(x): return x is not None`, `def _expired(stamp, cutoff): return stamp <= cutoff`,
+    `def _wants_raise(d): return d.action == "raise"`: a module-level function that did not exist when the rules were
+    written and whose body is one `return` of an effect-free expression over its parameters (comparisons, identity /
+    isinstance tests, boolean operators, attribute reads, constants) is a *name for that expression*.  Calls with plain
+    arguments (names, attribute chains, constants; no keyword tricks) are replaced by the expression in memory - the
+    same value, and the tests the rules know are visible again."""
+    import copy
+
+    PURE_CALLS = {"isinstance", "len", "callable", "type"}
+
+    def effect_free(e: ast.AST) -> bool:
+        for n in ast.walk(e):
+            if isinstance(n, (ast.Await, ast.NamedExpr, ast.Yield, ast.YieldFrom, ast.Lambda, ast.GeneratorExp, ast.ListComp, ast.SetComp, ast.DictComp, ast.Starred)):
+                return False
+            if isinstance(n, ast.Call) and not (isinstance(n.func, ast.Name) and n.func.id in PURE_CALLS and not n.keywords):
+                return False
+        return True
+
+    def plain(e: ast.expr) -> bool:
+        return isinstance(e, (ast.Name, ast.Constant)) or (isinstance(e, ast.Attribute) and plain(e.value))
+
+    defs: dict[tuple[str, str], ast.FunctionDef] = {}
+    for mod, tree in trees.items():
+        for st in tree.body:
+            if not isinstance(st, ast.FunctionDef) or f"{mod}:{st.name}" in known_funcs or st.decorator_list:
+                continue
+            body = [s for s in st.body if not (isinstance(s, ast.Expr) and isinstance(s.value, ast.Constant))]
+            a = st.args
+            if len(body) != 1 or not isinstance(body[0], ast.Return) or body[0].value is None or a.vararg or a.kwarg or a.kwonlyargs or a.defaults:
+                continue
+            params = [x.arg for x in a.posonlyargs + a.args]
+            if not effect_free(body[0].value):
+                continue
+            names = {n.id for n in ast.walk(body[0].value) if isinstance(n, ast.Name)}
+            free = names - set(params)
+            # free names must mean the same at the call site: only builtins / names the expression's module and the
+            # caller's module are both sure to have - keep it simple: allow enum / class names reached by attribute
+            # chains only when caller and callee share the module
+            defs[(mod, st.name)] = st
+    if not defs:
+        return {}
+    count: dict[str, int] = {}
+    for mod, tree in trees.items():
+        imported: dict[str, tuple[str, str]] = {}
+        for st in tree.body:
+            if isinstance(st, ast.ImportFrom) and st.module is not None or isinstance(st, ast.ImportFrom):
+                base = mod.split(".")
+                is_pkg = mod in pkgs
+                if st.level:
+                    up = st.level - (1 if is_pkg else 0)
+                    base = base[: len(base) - up] if up else base
+                    if not is_pkg:
+                        base = mod.split(".")[: len(mod.split(".")) - st.level]
+                    target = ".".join(base + ([st.module] if st.module else []))
+                else:
+                    target = st.module or ""
+                for al in st.names:
+                    imported[al.asname or al.name] = (target, al.name)
+
+        def resolve(name: str) -> tuple[str, ast.FunctionDef] | None:
+            if (mod, name) in defs:
+                return mod, defs[(mod, name)]
+            if name in imported and imported[name] in defs:
+                return imported[name][0], defs[imported[name]]
+            return None
+
+        class Inl(ast.NodeTransformer):
+            def visit_Call(self, c: ast.Call) -> ast.AST:
+                self.generic_visit(c)
+                if not isinstance(c.func, ast.Name) or c.keywords:
+                    return c
+                r = resolve(c.func.id)
+                if r is None:
+                    return c
+                dmod, fn = r
+                params = [x.arg for x in fn.args.posonlyargs + fn.args.args]
+                if len(c.args) != len(params) or not all(plain(a) for a in c.args):
+                    return c
+                expr = [s for s in fn.body if isinstance(s, ast.Return)][0].value
+                free = {n.id for n in ast.walk(expr) if isinstance(n, ast.Name)} - set(params) - {"isinstance", "len", "callable", "type", "True", "False", "None"}
+                if free and dmod != mod:
+                    return c  # the expression names things of its own module
+                sub = dict(zip(params, c.args))
+
+                class S(ast.NodeTransformer):
+                    def visit_Name(self, n: ast.Name) -> ast.AST:
+                        if n.id in sub and isinstance(n.ctx, ast.Load):
+                            return ast.copy_location(copy.deepcopy(sub[n.id]), n)
+                        return n
+
+                new = S().visit(copy.deepcopy(expr))
+                for x in ast.walk(new):
+                    ast.copy_location(x, c)
+                count[f"{dmod}:{fn.name}"] = count.get(f"{dmod}:{fn.name}", 0) + 1
+                return new
+
+        Inl().visit(tree)
+        ast.fix_missing_locations(tree)
+    return count
